@@ -18,7 +18,7 @@ QUERIES = [
 BITS = [(1, "exit-0-but-script-not-completely-performed"), (2, "non-tolerated-failure-but-exit-0"),
         (4, "something-performed-after-a-failure-or-stop"), (8, "tolerated-failure-or-nothing-yet-exit-nonzero"),
         (16, "wrong-number-of-performances"), (32, "repeated-beyond-repeat-time"),
-        (64, "compiled-tolerance-mark-differs-from-script-text")]
+        (64, "compiled-play-or-tolerance-marks-differ-from-script-text")]
 ASSUMPTIONS = [
     "the prompter theorems are about the untimed model `perform`; the conductor theorem about the LTS of Model/Conduct.v (errors abstracted to nil / cancelled / audit violation / other; component behaviour as read from the code after commit d415a46)",
     "a signal (stopper quiesce) legitimately ends a play early with status 0 (SIGTERM): the conductor theorem excludes it by hypothesis, the end-to-end plays send none",
